@@ -65,9 +65,18 @@ def builtin_models():
     return res
 
 
+STRUCTURAL_PREFIXES = ('SHAPE:', 'LAYOUT:', 'SCAN:emission', 'GROUND:wiring', 'PATHS:p8-writer')
+
+
 def account(check, results, backend='GROUND'):
     for name, ok, detail in results:
         check.count(backend, 'discharged' if ok else 'failed', 0.0, name)
+        if not ok and name.startswith(STRUCTURAL_PREFIXES):
+            # a syntactic obligation about the SHAPE of the source: a failure means "the code no longer has the form the contract was
+            # written for".  That is a violation only with a concrete failing input (from the check's bounded native run); a harmless
+            # refactor must not raise an alarm -- it is reported as undecided (the contract has to be re-derived).
+            check.structural_fail.append((name, detail))
+            continue
         if not ok:
             # evaluated on the real module constants / through the real functions: the witness IS a native observation
             check.violation(name, {'witness': detail, 'solver_output': 'ground evaluation on the real code is false: ' + str(detail)}, True)
